@@ -400,7 +400,7 @@ func runFault(t fataler, test string, f faultSpec) (verdict string, nontrivial b
 	}
 	cls := f.class()
 	if verdict == "undetected" || verdict == "detected-by-other" || verdict == "detected-by-aggregator" {
-		free, _ := isFree(sc, sl, cls, opName)
+		free, _ := isFree(sc, sl, cls, opName, desc)
 		if free {
 			verdict = "free"
 		} else if survey() {
